@@ -12,7 +12,7 @@ package codec
 // the bytes.Reader it wraps show the same content and the cursor is not negative.
 //
 //@ pred validB(b) = b != nil && b.buf != nil
-//@ pred validR(b) = b != nil && b.buf != nil && b.ref == b.buf.src && b.buf.i >= 0 && allocated(b.ref)
+//@ pred validR(b) = b != nil && b.buf != nil && b.ref == b.buf.src && b.buf.i >= 0 && allocated(b.ref) && b.depth >= 0 && b.depth <= maxNestDepth
 //
 // atHead: the wanted field is the very next field (the case property C02 speaks about: write, then read
 // with the same tag); in that case nothing has to be skipped.
@@ -207,7 +207,8 @@ package codec
 //@   requires validR(b)
 //@   let src = b.buf.src
 //@   let i0 = b.buf.i
-//@   modifies b.buf.i
+//@   modifies b.buf.i, b.depth
+//@   ensures b.depth == old(b.depth)
 //@   ensures [C02,C04,C05,C06] hdOk(src, i0) ==> (err == nil && ty == hdTy(src, i0) && tag == hdTag(src, i0) && b.buf.i == hdNext(src, i0))
 //@   ensures [C04,C05,C06] !hdOk(src, i0) ==> (err != nil && b.buf.i == hdFailPos(src, i0))
 //@   ensures [C04,C05,C06] b.buf.i >= i0
@@ -217,7 +218,8 @@ package codec
 //@   witness src = b.buf.src
 //@   witness i = b.buf.i
 //@   requires validR(b) && b.buf.i >= headLen(curTag)
-//@   modifies b.buf.i
+//@   modifies b.buf.i, b.depth
+//@   ensures b.depth == old(b.depth)
 //@   ensures [C04,C05,C06] b.buf.i == old(b.buf.i) - headLen(curTag)
 //@   safety [C05]
 //
@@ -225,7 +227,8 @@ package codec
 //@   witness src = b.buf.src
 //@   witness i = b.buf.i
 //@   requires validR(b)
-//@   modifies b.buf.i
+//@   modifies b.buf.i, b.depth
+//@   ensures b.depth == old(b.depth)
 //@   ensures [C04,C05,C06] n <= 0 ==> b.buf.i == old(b.buf.i)
 //@   ensures [C04,C05,C06] n > 0 ==> b.buf.i == old(b.buf.i) + n
 //@   safety [C05]
@@ -236,7 +239,8 @@ package codec
 //@   requires validR(b)
 //@   let src = b.buf.src
 //@   let i0 = b.buf.i
-//@   modifies b.buf.i
+//@   modifies b.buf.i, b.depth
+//@   ensures b.depth == old(b.depth)
 //@   ensures [C02,C04,C05,C06] n <= 0 ==> (len(result) == 0 && b.buf.i == i0)
 //@   ensures [C02,C04,C06] (n > 0 && i0 + n <= len(src)) ==> (result == src[i0 : i0 + n] && b.buf.i == i0 + n)
 //@   ensures [C04,C05,C06] n > 0 ==> b.buf.i == i0 + n
@@ -249,8 +253,10 @@ package codec
 //@   requires validR(b)
 //@   let src = b.buf.src
 //@   let i0 = b.buf.i
-//@   modifies b.buf.i
-//@   ensures [C04,C06] payloadEnd(src, ty, i0) >= 0 ==> (err == nil && b.buf.i == payloadEnd(src, ty, i0))
+//@   let d0 = b.depth
+//@   modifies b.buf.i, b.depth
+//@   ensures b.depth == old(b.depth)
+//@   ensures [C04,C06] payloadEnd(src, ty, i0, d0) >= 0 ==> (err == nil && b.buf.i == payloadEnd(src, ty, i0, d0))
 //@   ensures [C04,C05,C06] b.buf.i >= i0
 //@   decreases len(b.buf.src) - b.buf.i, 3
 //@   safety [C05]
@@ -261,11 +267,14 @@ package codec
 //@   requires validR(b)
 //@   let src = b.buf.src
 //@   let i0 = b.buf.i
-//@   modifies b.buf.i
-//@   ensures [C04,C06] payloadEnd(src, LIST, i0) >= 0 ==> (err == nil && b.buf.i == payloadEnd(src, LIST, i0))
+//@   let d0 = b.depth
+//@   let pe = payloadEnd(b.buf.src, LIST, b.buf.i, b.depth - 1)
+//@   modifies b.buf.i, b.depth
+//@   ensures b.depth == old(b.depth)
+//@   ensures [C04,C06] payloadEnd(src, LIST, i0, d0 - 1) >= 0 ==> (err == nil && b.buf.i == payloadEnd(src, LIST, i0, d0 - 1))
 //@   ensures [C04,C05,C06] b.buf.i >= i0
-//@   loop 0 invariant validR(b) && b.buf.i >= i0 && i >= 0
-//@   loop 0 invariant [C04,C06] payloadEnd(src, LIST, i0) >= 0 ==> (length >= 0 && i <= length && fieldsEnd(src, length - i, b.buf.i) == payloadEnd(src, LIST, i0))
+//@   loop 0 invariant validR(b) && b.buf.i >= i0 && i >= 0 && b.depth == old(b.depth)
+//@   loop 0 invariant [C04,C06] pe >= 0 ==> (length >= 0 && i <= length && fieldsEnd(src, length - i, b.buf.i, d0) == pe)
 //@   loop 0 decreases length - i
 //@   decreases len(b.buf.src) - b.buf.i, 2
 //@   safety [C05]
@@ -276,11 +285,14 @@ package codec
 //@   requires validR(b)
 //@   let src = b.buf.src
 //@   let i0 = b.buf.i
-//@   modifies b.buf.i
-//@   ensures [C04,C06] payloadEnd(src, MAP, i0) >= 0 ==> (err == nil && b.buf.i == payloadEnd(src, MAP, i0))
+//@   let d0 = b.depth
+//@   let pe = payloadEnd(b.buf.src, MAP, b.buf.i, b.depth - 1)
+//@   modifies b.buf.i, b.depth
+//@   ensures b.depth == old(b.depth)
+//@   ensures [C04,C06] payloadEnd(src, MAP, i0, d0 - 1) >= 0 ==> (err == nil && b.buf.i == payloadEnd(src, MAP, i0, d0 - 1))
 //@   ensures [C04,C05,C06] b.buf.i >= i0
-//@   loop 0 invariant validR(b) && b.buf.i >= i0 && i >= 0
-//@   loop 0 invariant [C04,C06] payloadEnd(src, MAP, i0) >= 0 ==> (length >= 0 && length <= 1073741823 && i <= 2 * length && fieldsEnd(src, 2 * length - i, b.buf.i) == payloadEnd(src, MAP, i0))
+//@   loop 0 invariant validR(b) && b.buf.i >= i0 && i >= 0 && b.depth == old(b.depth)
+//@   loop 0 invariant [C04,C06] pe >= 0 ==> (length >= 0 && length <= 1073741823 && i <= 2 * length && fieldsEnd(src, 2 * length - i, b.buf.i, d0) == pe)
 //@   loop 0 decreases s32(length * 2) - i
 //@   decreases len(b.buf.src) - b.buf.i, 2
 //@   safety [C05]
@@ -291,8 +303,10 @@ package codec
 //@   requires validR(b)
 //@   let src = b.buf.src
 //@   let i0 = b.buf.i
-//@   modifies b.buf.i
-//@   ensures [C04,C06] payloadEnd(src, SimpleList, i0) >= 0 ==> (err == nil && b.buf.i == payloadEnd(src, SimpleList, i0))
+//@   let d0 = b.depth
+//@   modifies b.buf.i, b.depth
+//@   ensures b.depth == old(b.depth)
+//@   ensures [C04,C06] payloadEnd(src, SimpleList, i0, d0) >= 0 ==> (err == nil && b.buf.i == payloadEnd(src, SimpleList, i0, d0))
 //@   ensures [C04,C05,C06] b.buf.i >= i0
 //@   decreases len(b.buf.src) - b.buf.i, 2
 //@   safety [C05]
@@ -303,11 +317,13 @@ package codec
 //@   requires validR(b)
 //@   let src = b.buf.src
 //@   let i0 = b.buf.i
-//@   modifies b.buf.i
-//@   ensures [C04,C06] structEnd(src, i0) >= 0 ==> (err == nil && b.buf.i == structEnd(src, i0))
+//@   let d0 = b.depth
+//@   modifies b.buf.i, b.depth
+//@   ensures b.depth == old(b.depth)
+//@   ensures [C04,C06] structEnd(src, i0, d0) >= 0 ==> (err == nil && b.buf.i == structEnd(src, i0, d0))
 //@   ensures [C04,C05,C06] b.buf.i >= i0
-//@   loop 0 invariant validR(b) && b.buf.i >= i0
-//@   loop 0 invariant [C04,C06] structEnd(src, i0) >= 0 ==> structEnd(src, b.buf.i) == structEnd(src, i0)
+//@   loop 0 invariant validR(b) && b.buf.i >= i0 && b.depth == old(b.depth)
+//@   loop 0 invariant [C04,C06] structEnd(src, i0, d0) >= 0 ==> structEnd(src, b.buf.i, d0) == structEnd(src, i0, d0)
 //@   loop 0 decreases len(src) - b.buf.i
 //@   decreases len(b.buf.src) - b.buf.i, 2
 //@   safety [C05]
@@ -318,17 +334,20 @@ package codec
 //@   requires validR(b)
 //@   let src = b.buf.src
 //@   let i0 = b.buf.i
-//@   modifies b.buf.i
+//@   let d0 = b.depth
+//@   modifies b.buf.i, b.depth
+//@   ensures b.depth == old(b.depth)
 //@   ensures [C02] atHead(src, i0, tag) ==> (result0 && result1 == hdTy(src, i0) && err == nil && b.buf.i == hdNext(src, i0))
-//@   ensures [C02] atHead(src, i0, tag) ==> (seekK(src, i0, tag) == 0 && seekTy(src, i0, tag) == hdTy(src, i0) && seekP(src, i0, tag) == hdNext(src, i0))
-//@   ensures [C04,C06] seekK(src, i0, tag) == 0 ==> (result0 && result1 == seekTy(src, i0, tag) && err == nil && b.buf.i == seekP(src, i0, tag))
-//@   ensures [C04,C06] (seekK(src, i0, tag) == 1 || seekK(src, i0, tag) == 2) ==> (require ? err != nil : (!result0 && err == nil))
-//@   ensures [C04] (seekK(src, i0, tag) == 1 && !require && seekCanon(src, i0, tag)) ==> b.buf.i == seekP(src, i0, tag)
-//@   ensures [C04] (seekK(src, i0, tag) == 2 && !require) ==> b.buf.i == seekP(src, i0, tag)
+//@   ensures [C02] atHead(src, i0, tag) ==> (seekK(src, i0, tag, d0) == 0 && seekTy(src, i0, tag, d0) == hdTy(src, i0) && seekP(src, i0, tag, d0) == hdNext(src, i0))
+//@   ensures [C04,C06] seekK(src, i0, tag, d0) == 0 ==> (result0 && result1 == seekTy(src, i0, tag, d0) && err == nil && b.buf.i == seekP(src, i0, tag, d0))
+//@   ensures [C04,C06] (seekK(src, i0, tag, d0) == 1 || seekK(src, i0, tag, d0) == 2) ==> (require ? err != nil : (!result0 && err == nil))
+//@   ensures [C04] (seekK(src, i0, tag, d0) == 1 && !require && seekCanon(src, i0, tag, d0)) ==> b.buf.i == seekP(src, i0, tag, d0)
+//@   ensures [C04] (seekK(src, i0, tag, d0) == 2 && !require) ==> b.buf.i == seekP(src, i0, tag, d0)
 //@   ensures [C04,C05,C06] b.buf.i >= i0
 //@   loop 0 invariant [C04,C05,C06] validR(b) && b.buf.i >= i0
+//@   loop 0 invariant b.depth == old(b.depth)
 //@   loop 0 invariant [C02] (b.buf.i == i0 && validR(b)) || !atHead(src, i0, tag)
-//@   loop 0 invariant [C04,C06] seekK(src, i0, tag) != 3 ==> seekK(src, b.buf.i, tag) == seekK(src, i0, tag) && seekP(src, b.buf.i, tag) == seekP(src, i0, tag) && seekTy(src, b.buf.i, tag) == seekTy(src, i0, tag) && seekCanon(src, b.buf.i, tag) == seekCanon(src, i0, tag)
+//@   loop 0 invariant [C04,C06] seekK(src, i0, tag, d0) != 3 ==> seekK(src, b.buf.i, tag, d0) == seekK(src, i0, tag, d0) && seekP(src, b.buf.i, tag, d0) == seekP(src, i0, tag, d0) && seekTy(src, b.buf.i, tag, d0) == seekTy(src, i0, tag, d0) && seekCanon(src, b.buf.i, tag, d0) == seekCanon(src, i0, tag, d0)
 //@   loop 0 decreases len(src) - b.buf.i
 //@   decreases len(b.buf.src) - b.buf.i, 0
 //@   safety [C05]
@@ -339,11 +358,13 @@ package codec
 //@   requires validR(b)
 //@   let src = b.buf.src
 //@   let i0 = b.buf.i
-//@   modifies b.buf.i
-//@   ensures [C04,C06] (seekK(src, i0, tag) == 0 && seekTy(src, i0, tag) == ty) ==> (result0 && err == nil && b.buf.i == seekP(src, i0, tag))
-//@   ensures [C06] (seekK(src, i0, tag) == 0 && seekTy(src, i0, tag) != ty) ==> err != nil
-//@   ensures [C04,C06] (seekK(src, i0, tag) == 1 || seekK(src, i0, tag) == 2) ==> (require ? err != nil : (!result0 && err == nil))
-//@   ensures [C04] (seekK(src, i0, tag) == 1 && !require && seekCanon(src, i0, tag)) ==> b.buf.i == seekP(src, i0, tag)
+//@   let d0 = b.depth
+//@   modifies b.buf.i, b.depth
+//@   ensures b.depth == old(b.depth)
+//@   ensures [C04,C06] (seekK(src, i0, tag, d0) == 0 && seekTy(src, i0, tag, d0) == ty) ==> (result0 && err == nil && b.buf.i == seekP(src, i0, tag, d0))
+//@   ensures [C06] (seekK(src, i0, tag, d0) == 0 && seekTy(src, i0, tag, d0) != ty) ==> err != nil
+//@   ensures [C04,C06] (seekK(src, i0, tag, d0) == 1 || seekK(src, i0, tag, d0) == 2) ==> (require ? err != nil : (!result0 && err == nil))
+//@   ensures [C04] (seekK(src, i0, tag, d0) == 1 && !require && seekCanon(src, i0, tag, d0)) ==> b.buf.i == seekP(src, i0, tag, d0)
 //@   ensures [C04,C05,C06] b.buf.i >= i0
 //@   safety [C05]
 //
@@ -356,12 +377,14 @@ package codec
 //@   requires validR(b) && data != nil
 //@   let src = b.buf.src
 //@   let i0 = b.buf.i
-//@   modifies b.buf.i, *data
-//@   ensures [C02] (atHead(src, i0, tag) && decIntK(src, i0, tag, require, 1) == 0) ==> (err == nil && *data == decIntV(src, i0, tag) && b.buf.i == decIntP(src, i0, tag))
-//@   ensures [C04,C06] decIntK(src, i0, tag, require, 1) == 0 ==> (err == nil && *data == decIntV(src, i0, tag) && b.buf.i == decIntP(src, i0, tag))
-//@   ensures [C04,C06] decIntK(src, i0, tag, require, 1) == 1 ==> (err == nil && *data == old(*data))
-//@   ensures [C04] (decIntK(src, i0, tag, require, 1) == 1 && seekK(src, i0, tag) == 1 && seekCanon(src, i0, tag)) ==> b.buf.i == seekP(src, i0, tag)
-//@   ensures [C06] decIntK(src, i0, tag, require, 1) == 2 ==> err != nil
+//@   let d0 = b.depth
+//@   modifies b.buf.i, b.depth, *data
+//@   ensures b.depth == old(b.depth)
+//@   ensures [C02] (atHead(src, i0, tag) && decIntK(src, i0, tag, require, 1, d0) == 0) ==> (err == nil && *data == decIntV(src, i0, tag, d0) && b.buf.i == decIntP(src, i0, tag, d0))
+//@   ensures [C04,C06] decIntK(src, i0, tag, require, 1, d0) == 0 ==> (err == nil && *data == decIntV(src, i0, tag, d0) && b.buf.i == decIntP(src, i0, tag, d0))
+//@   ensures [C04,C06] decIntK(src, i0, tag, require, 1, d0) == 1 ==> (err == nil && *data == old(*data))
+//@   ensures [C04] (decIntK(src, i0, tag, require, 1, d0) == 1 && seekK(src, i0, tag, d0) == 1 && seekCanon(src, i0, tag, d0)) ==> b.buf.i == seekP(src, i0, tag, d0)
+//@   ensures [C06] decIntK(src, i0, tag, require, 1, d0) == 2 ==> err != nil
 //@   ensures [C04,C05,C06] b.buf.i >= i0
 //@   decreases len(b.buf.src) - b.buf.i, 1
 //@   safety [C05]
@@ -373,12 +396,14 @@ package codec
 //@   requires validR(b) && data != nil
 //@   let src = b.buf.src
 //@   let i0 = b.buf.i
-//@   modifies b.buf.i, *data
-//@   ensures [C02] (atHead(src, i0, tag) && decIntK(src, i0, tag, require, 2) == 0) ==> (err == nil && *data == decIntV(src, i0, tag) && b.buf.i == decIntP(src, i0, tag))
-//@   ensures [C04,C06] decIntK(src, i0, tag, require, 2) == 0 ==> (err == nil && *data == decIntV(src, i0, tag) && b.buf.i == decIntP(src, i0, tag))
-//@   ensures [C04,C06] decIntK(src, i0, tag, require, 2) == 1 ==> (err == nil && *data == old(*data))
-//@   ensures [C04] (decIntK(src, i0, tag, require, 2) == 1 && seekK(src, i0, tag) == 1 && seekCanon(src, i0, tag)) ==> b.buf.i == seekP(src, i0, tag)
-//@   ensures [C06] decIntK(src, i0, tag, require, 2) == 2 ==> err != nil
+//@   let d0 = b.depth
+//@   modifies b.buf.i, b.depth, *data
+//@   ensures b.depth == old(b.depth)
+//@   ensures [C02] (atHead(src, i0, tag) && decIntK(src, i0, tag, require, 2, d0) == 0) ==> (err == nil && *data == decIntV(src, i0, tag, d0) && b.buf.i == decIntP(src, i0, tag, d0))
+//@   ensures [C04,C06] decIntK(src, i0, tag, require, 2, d0) == 0 ==> (err == nil && *data == decIntV(src, i0, tag, d0) && b.buf.i == decIntP(src, i0, tag, d0))
+//@   ensures [C04,C06] decIntK(src, i0, tag, require, 2, d0) == 1 ==> (err == nil && *data == old(*data))
+//@   ensures [C04] (decIntK(src, i0, tag, require, 2, d0) == 1 && seekK(src, i0, tag, d0) == 1 && seekCanon(src, i0, tag, d0)) ==> b.buf.i == seekP(src, i0, tag, d0)
+//@   ensures [C06] decIntK(src, i0, tag, require, 2, d0) == 2 ==> err != nil
 //@   ensures [C04,C05,C06] b.buf.i >= i0
 //@   decreases len(b.buf.src) - b.buf.i, 1
 //@   safety [C05]
@@ -390,12 +415,14 @@ package codec
 //@   requires validR(b) && data != nil
 //@   let src = b.buf.src
 //@   let i0 = b.buf.i
-//@   modifies b.buf.i, *data
-//@   ensures [C02] (atHead(src, i0, tag) && decIntK(src, i0, tag, require, 4) == 0) ==> (err == nil && *data == decIntV(src, i0, tag) && b.buf.i == decIntP(src, i0, tag))
-//@   ensures [C04,C06] decIntK(src, i0, tag, require, 4) == 0 ==> (err == nil && *data == decIntV(src, i0, tag) && b.buf.i == decIntP(src, i0, tag))
-//@   ensures [C04,C06] decIntK(src, i0, tag, require, 4) == 1 ==> (err == nil && *data == old(*data))
-//@   ensures [C04] (decIntK(src, i0, tag, require, 4) == 1 && seekK(src, i0, tag) == 1 && seekCanon(src, i0, tag)) ==> b.buf.i == seekP(src, i0, tag)
-//@   ensures [C06] decIntK(src, i0, tag, require, 4) == 2 ==> err != nil
+//@   let d0 = b.depth
+//@   modifies b.buf.i, b.depth, *data
+//@   ensures b.depth == old(b.depth)
+//@   ensures [C02] (atHead(src, i0, tag) && decIntK(src, i0, tag, require, 4, d0) == 0) ==> (err == nil && *data == decIntV(src, i0, tag, d0) && b.buf.i == decIntP(src, i0, tag, d0))
+//@   ensures [C04,C06] decIntK(src, i0, tag, require, 4, d0) == 0 ==> (err == nil && *data == decIntV(src, i0, tag, d0) && b.buf.i == decIntP(src, i0, tag, d0))
+//@   ensures [C04,C06] decIntK(src, i0, tag, require, 4, d0) == 1 ==> (err == nil && *data == old(*data))
+//@   ensures [C04] (decIntK(src, i0, tag, require, 4, d0) == 1 && seekK(src, i0, tag, d0) == 1 && seekCanon(src, i0, tag, d0)) ==> b.buf.i == seekP(src, i0, tag, d0)
+//@   ensures [C06] decIntK(src, i0, tag, require, 4, d0) == 2 ==> err != nil
 //@   ensures [C04,C05,C06] b.buf.i >= i0
 //@   decreases len(b.buf.src) - b.buf.i, 1
 //@   safety [C05]
@@ -404,15 +431,17 @@ package codec
 //@   witness src = b.buf.src
 //@   witness i = b.buf.i
 //@   witness data0 = *data
-//@   requires validR(b) && data != nil
+//@   requires validR(b) && data != nil && data != &b.depth
 //@   let src = b.buf.src
 //@   let i0 = b.buf.i
-//@   modifies b.buf.i, *data
-//@   ensures [C02] (atHead(src, i0, tag) && decIntK(src, i0, tag, require, 8) == 0) ==> (err == nil && *data == decIntV(src, i0, tag) && b.buf.i == decIntP(src, i0, tag))
-//@   ensures [C04,C06] decIntK(src, i0, tag, require, 8) == 0 ==> (err == nil && *data == decIntV(src, i0, tag) && b.buf.i == decIntP(src, i0, tag))
-//@   ensures [C04,C06] decIntK(src, i0, tag, require, 8) == 1 ==> (err == nil && *data == old(*data))
-//@   ensures [C04] (decIntK(src, i0, tag, require, 8) == 1 && seekK(src, i0, tag) == 1 && seekCanon(src, i0, tag)) ==> b.buf.i == seekP(src, i0, tag)
-//@   ensures [C06] decIntK(src, i0, tag, require, 8) == 2 ==> err != nil
+//@   let d0 = b.depth
+//@   modifies b.buf.i, b.depth, *data
+//@   ensures b.depth == old(b.depth)
+//@   ensures [C02] (atHead(src, i0, tag) && decIntK(src, i0, tag, require, 8, d0) == 0) ==> (err == nil && *data == decIntV(src, i0, tag, d0) && b.buf.i == decIntP(src, i0, tag, d0))
+//@   ensures [C04,C06] decIntK(src, i0, tag, require, 8, d0) == 0 ==> (err == nil && *data == decIntV(src, i0, tag, d0) && b.buf.i == decIntP(src, i0, tag, d0))
+//@   ensures [C04,C06] decIntK(src, i0, tag, require, 8, d0) == 1 ==> (err == nil && *data == old(*data))
+//@   ensures [C04] (decIntK(src, i0, tag, require, 8, d0) == 1 && seekK(src, i0, tag, d0) == 1 && seekCanon(src, i0, tag, d0)) ==> b.buf.i == seekP(src, i0, tag, d0)
+//@   ensures [C06] decIntK(src, i0, tag, require, 8, d0) == 2 ==> err != nil
 //@   ensures [C04,C05,C06] b.buf.i >= i0
 //@   decreases len(b.buf.src) - b.buf.i, 1
 //@   safety [C05]
@@ -424,11 +453,13 @@ package codec
 //@   requires validR(b) && data != nil
 //@   let src = b.buf.src
 //@   let i0 = b.buf.i
-//@   modifies b.buf.i, *data
-//@   ensures [C02] (atHead(src, i0, tag) && decIntK(src, i0, tag, require, 2) == 0) ==> (err == nil && *data == u8(decIntV(src, i0, tag)) && b.buf.i == decIntP(src, i0, tag))
-//@   ensures [C04,C06] decIntK(src, i0, tag, require, 2) == 0 ==> (err == nil && *data == u8(decIntV(src, i0, tag)) && b.buf.i == decIntP(src, i0, tag))
-//@   ensures [C04,C06] decIntK(src, i0, tag, require, 2) == 1 ==> (err == nil && *data == old(*data))
-//@   ensures [C06] decIntK(src, i0, tag, require, 2) == 2 ==> err != nil
+//@   let d0 = b.depth
+//@   modifies b.buf.i, b.depth, *data
+//@   ensures b.depth == old(b.depth)
+//@   ensures [C02] (atHead(src, i0, tag) && decIntK(src, i0, tag, require, 2, d0) == 0) ==> (err == nil && *data == u8(decIntV(src, i0, tag, d0)) && b.buf.i == decIntP(src, i0, tag, d0))
+//@   ensures [C04,C06] decIntK(src, i0, tag, require, 2, d0) == 0 ==> (err == nil && *data == u8(decIntV(src, i0, tag, d0)) && b.buf.i == decIntP(src, i0, tag, d0))
+//@   ensures [C04,C06] decIntK(src, i0, tag, require, 2, d0) == 1 ==> (err == nil && *data == old(*data))
+//@   ensures [C06] decIntK(src, i0, tag, require, 2, d0) == 2 ==> err != nil
 //@   ensures [C04,C05,C06] b.buf.i >= i0
 //@   safety [C05]
 //
@@ -439,11 +470,13 @@ package codec
 //@   requires validR(b) && data != nil
 //@   let src = b.buf.src
 //@   let i0 = b.buf.i
-//@   modifies b.buf.i, *data
-//@   ensures [C02] (atHead(src, i0, tag) && decIntK(src, i0, tag, require, 4) == 0) ==> (err == nil && *data == u16(decIntV(src, i0, tag)) && b.buf.i == decIntP(src, i0, tag))
-//@   ensures [C04,C06] decIntK(src, i0, tag, require, 4) == 0 ==> (err == nil && *data == u16(decIntV(src, i0, tag)) && b.buf.i == decIntP(src, i0, tag))
-//@   ensures [C04,C06] decIntK(src, i0, tag, require, 4) == 1 ==> (err == nil && *data == old(*data))
-//@   ensures [C06] decIntK(src, i0, tag, require, 4) == 2 ==> err != nil
+//@   let d0 = b.depth
+//@   modifies b.buf.i, b.depth, *data
+//@   ensures b.depth == old(b.depth)
+//@   ensures [C02] (atHead(src, i0, tag) && decIntK(src, i0, tag, require, 4, d0) == 0) ==> (err == nil && *data == u16(decIntV(src, i0, tag, d0)) && b.buf.i == decIntP(src, i0, tag, d0))
+//@   ensures [C04,C06] decIntK(src, i0, tag, require, 4, d0) == 0 ==> (err == nil && *data == u16(decIntV(src, i0, tag, d0)) && b.buf.i == decIntP(src, i0, tag, d0))
+//@   ensures [C04,C06] decIntK(src, i0, tag, require, 4, d0) == 1 ==> (err == nil && *data == old(*data))
+//@   ensures [C06] decIntK(src, i0, tag, require, 4, d0) == 2 ==> err != nil
 //@   ensures [C04,C05,C06] b.buf.i >= i0
 //@   safety [C05]
 //
@@ -454,11 +487,13 @@ package codec
 //@   requires validR(b) && data != nil
 //@   let src = b.buf.src
 //@   let i0 = b.buf.i
-//@   modifies b.buf.i, *data
-//@   ensures [C02] (atHead(src, i0, tag) && decIntK(src, i0, tag, require, 8) == 0) ==> (err == nil && *data == u32(decIntV(src, i0, tag)) && b.buf.i == decIntP(src, i0, tag))
-//@   ensures [C04,C06] decIntK(src, i0, tag, require, 8) == 0 ==> (err == nil && *data == u32(decIntV(src, i0, tag)) && b.buf.i == decIntP(src, i0, tag))
-//@   ensures [C04,C06] decIntK(src, i0, tag, require, 8) == 1 ==> (err == nil && *data == old(*data))
-//@   ensures [C06] decIntK(src, i0, tag, require, 8) == 2 ==> err != nil
+//@   let d0 = b.depth
+//@   modifies b.buf.i, b.depth, *data
+//@   ensures b.depth == old(b.depth)
+//@   ensures [C02] (atHead(src, i0, tag) && decIntK(src, i0, tag, require, 8, d0) == 0) ==> (err == nil && *data == u32(decIntV(src, i0, tag, d0)) && b.buf.i == decIntP(src, i0, tag, d0))
+//@   ensures [C04,C06] decIntK(src, i0, tag, require, 8, d0) == 0 ==> (err == nil && *data == u32(decIntV(src, i0, tag, d0)) && b.buf.i == decIntP(src, i0, tag, d0))
+//@   ensures [C04,C06] decIntK(src, i0, tag, require, 8, d0) == 1 ==> (err == nil && *data == old(*data))
+//@   ensures [C06] decIntK(src, i0, tag, require, 8, d0) == 2 ==> err != nil
 //@   ensures [C04,C05,C06] b.buf.i >= i0
 //@   safety [C05]
 //
@@ -469,11 +504,13 @@ package codec
 //@   requires validR(b) && data != nil
 //@   let src = b.buf.src
 //@   let i0 = b.buf.i
-//@   modifies b.buf.i, *data
-//@   ensures [C02] (atHead(src, i0, tag) && decIntK(src, i0, tag, require, 1) == 0) ==> (err == nil && *data == (decIntV(src, i0, tag) != 0) && b.buf.i == decIntP(src, i0, tag))
-//@   ensures [C04,C06] decIntK(src, i0, tag, require, 1) == 0 ==> (err == nil && *data == (decIntV(src, i0, tag) != 0) && b.buf.i == decIntP(src, i0, tag))
-//@   ensures [C04,C06] decIntK(src, i0, tag, require, 1) == 1 ==> (err == nil && *data == old(*data))
-//@   ensures [C06] decIntK(src, i0, tag, require, 1) == 2 ==> err != nil
+//@   let d0 = b.depth
+//@   modifies b.buf.i, b.depth, *data
+//@   ensures b.depth == old(b.depth)
+//@   ensures [C02] (atHead(src, i0, tag) && decIntK(src, i0, tag, require, 1, d0) == 0) ==> (err == nil && *data == (decIntV(src, i0, tag, d0) != 0) && b.buf.i == decIntP(src, i0, tag, d0))
+//@   ensures [C04,C06] decIntK(src, i0, tag, require, 1, d0) == 0 ==> (err == nil && *data == (decIntV(src, i0, tag, d0) != 0) && b.buf.i == decIntP(src, i0, tag, d0))
+//@   ensures [C04,C06] decIntK(src, i0, tag, require, 1, d0) == 1 ==> (err == nil && *data == old(*data))
+//@   ensures [C06] decIntK(src, i0, tag, require, 1, d0) == 2 ==> err != nil
 //@   ensures [C04,C05,C06] b.buf.i >= i0
 //@   safety [C05]
 //
@@ -484,11 +521,13 @@ package codec
 //@   requires validR(b) && data != nil
 //@   let src = b.buf.src
 //@   let i0 = b.buf.i
-//@   modifies b.buf.i, *data
-//@   ensures [C02] (atHead(src, i0, tag) && decF32K(src, i0, tag, require) == 0) ==> (err == nil && *data == decF32V(src, i0, tag) && b.buf.i == decIntP(src, i0, tag))
-//@   ensures [C04,C06] decF32K(src, i0, tag, require) == 0 ==> (err == nil && *data == decF32V(src, i0, tag) && b.buf.i == decIntP(src, i0, tag))
-//@   ensures [C04,C06] decF32K(src, i0, tag, require) == 1 ==> (err == nil && *data == old(*data))
-//@   ensures [C06] decF32K(src, i0, tag, require) == 2 ==> err != nil
+//@   let d0 = b.depth
+//@   modifies b.buf.i, b.depth, *data
+//@   ensures b.depth == old(b.depth)
+//@   ensures [C02] (atHead(src, i0, tag) && decF32K(src, i0, tag, require, d0) == 0) ==> (err == nil && *data == decF32V(src, i0, tag, d0) && b.buf.i == decIntP(src, i0, tag, d0))
+//@   ensures [C04,C06] decF32K(src, i0, tag, require, d0) == 0 ==> (err == nil && *data == decF32V(src, i0, tag, d0) && b.buf.i == decIntP(src, i0, tag, d0))
+//@   ensures [C04,C06] decF32K(src, i0, tag, require, d0) == 1 ==> (err == nil && *data == old(*data))
+//@   ensures [C06] decF32K(src, i0, tag, require, d0) == 2 ==> err != nil
 //@   ensures [C04,C05,C06] b.buf.i >= i0
 //@   safety [C05]
 //
@@ -499,11 +538,13 @@ package codec
 //@   requires validR(b) && data != nil
 //@   let src = b.buf.src
 //@   let i0 = b.buf.i
-//@   modifies b.buf.i, *data
-//@   ensures [C02] (atHead(src, i0, tag) && decF64K(src, i0, tag, require) == 0) ==> (err == nil && *data == decF64V(src, i0, tag) && b.buf.i == decIntP(src, i0, tag))
-//@   ensures [C04,C06] decF64K(src, i0, tag, require) == 0 ==> (err == nil && *data == decF64V(src, i0, tag) && b.buf.i == decIntP(src, i0, tag))
-//@   ensures [C04,C06] decF64K(src, i0, tag, require) == 1 ==> (err == nil && *data == old(*data))
-//@   ensures [C06] decF64K(src, i0, tag, require) == 2 ==> err != nil
+//@   let d0 = b.depth
+//@   modifies b.buf.i, b.depth, *data
+//@   ensures b.depth == old(b.depth)
+//@   ensures [C02] (atHead(src, i0, tag) && decF64K(src, i0, tag, require, d0) == 0) ==> (err == nil && *data == decF64V(src, i0, tag, d0) && b.buf.i == decIntP(src, i0, tag, d0))
+//@   ensures [C04,C06] decF64K(src, i0, tag, require, d0) == 0 ==> (err == nil && *data == decF64V(src, i0, tag, d0) && b.buf.i == decIntP(src, i0, tag, d0))
+//@   ensures [C04,C06] decF64K(src, i0, tag, require, d0) == 1 ==> (err == nil && *data == old(*data))
+//@   ensures [C06] decF64K(src, i0, tag, require, d0) == 2 ==> err != nil
 //@   ensures [C04,C05,C06] b.buf.i >= i0
 //@   safety [C05]
 //
@@ -514,11 +555,13 @@ package codec
 //@   requires validR(b) && data != nil
 //@   let src = b.buf.src
 //@   let i0 = b.buf.i
-//@   modifies b.buf.i, *data
-//@   ensures [C02] (atHead(src, i0, tag) && decStrK(src, i0, tag, require) == 0) ==> (err == nil && *data == decStrV(src, i0, tag) && b.buf.i == decStrP(src, i0, tag))
-//@   ensures [C04,C06] decStrK(src, i0, tag, require) == 0 ==> (err == nil && *data == decStrV(src, i0, tag) && b.buf.i == decStrP(src, i0, tag))
-//@   ensures [C04,C06] decStrK(src, i0, tag, require) == 1 ==> (err == nil && *data == old(*data))
-//@   ensures [C06] decStrK(src, i0, tag, require) == 2 ==> err != nil
+//@   let d0 = b.depth
+//@   modifies b.buf.i, b.depth, *data
+//@   ensures b.depth == old(b.depth)
+//@   ensures [C02] (atHead(src, i0, tag) && decStrK(src, i0, tag, require, d0) == 0) ==> (err == nil && *data == decStrV(src, i0, tag, d0) && b.buf.i == decStrP(src, i0, tag, d0))
+//@   ensures [C04,C06] decStrK(src, i0, tag, require, d0) == 0 ==> (err == nil && *data == decStrV(src, i0, tag, d0) && b.buf.i == decStrP(src, i0, tag, d0))
+//@   ensures [C04,C06] decStrK(src, i0, tag, require, d0) == 1 ==> (err == nil && *data == old(*data))
+//@   ensures [C06] decStrK(src, i0, tag, require, d0) == 2 ==> err != nil
 //@   ensures [C04,C05,C06] b.buf.i >= i0
 //@   safety [C05]
 //
@@ -531,7 +574,8 @@ package codec
 //@   let src = b.buf.src
 //@   let i0 = b.buf.i
 //@   let allocbudget = max(0, len(b.buf.src) - b.buf.i)
-//@   modifies b.buf.i, *data
+//@   modifies b.buf.i, b.depth, *data
+//@   ensures b.depth == old(b.depth)
 //@   allocates
 //@   ensures [C06] len <= 0 ==> (err == nil && hdr(*data) == old(hdr(*data)) && b.buf.i == i0)
 //@   ensures [C06] (len > 0 && err == nil) ==> (i0 + len <= len(src) && *data == src[i0 : i0 + len] && b.buf.i == i0 + len)
@@ -546,7 +590,8 @@ package codec
 //@   let src = b.buf.src
 //@   let i0 = b.buf.i
 //@   let allocbudget = max(0, len(b.buf.src) - b.buf.i)
-//@   modifies b.buf.i, *data
+//@   modifies b.buf.i, b.depth, *data
+//@   ensures b.depth == old(b.depth)
 //@   allocates
 //@   ensures [C06] len <= 0 ==> (err == nil && hdr(*data) == old(hdr(*data)) && b.buf.i == i0)
 //@   ensures [C06] (len > 0 && err == nil) ==> (i0 + len <= len(src) && *data == src[i0 : i0 + len] && b.buf.i == i0 + len)
@@ -561,7 +606,8 @@ package codec
 //@   let src = b.buf.src
 //@   let i0 = b.buf.i
 //@   let allocbudget = max(0, len(b.buf.src) - b.buf.i)
-//@   modifies b.buf.i, *data
+//@   modifies b.buf.i, b.depth, *data
+//@   ensures b.depth == old(b.depth)
 //@   allocates
 //@   ensures [C06] err == nil ==> (len >= 0 && i0 + len <= len(src) && *data == src[i0 : i0 + len] && b.buf.i == i0 + len)
 //@   ensures [C04,C05,C06] b.buf.i >= i0
@@ -576,14 +622,16 @@ package codec
 //
 //@ func NewReader
 //@   allocates
-//@   ensures validR(result) && fresh(result) && fresh(result.buf) && result.buf.src == data && result.buf.i == 0
+//@   ensures validR(result) && fresh(result) && fresh(result.buf) && result.buf.src == data && result.buf.i == 0 && result.depth == 0
+//@   ensures [C04,C05,C06] maxNestDepth == MAXD
 //@   safety [C05]
 //
 //@ func (*Reader).Reset
 //@   witness src = b.buf.src
 //@   witness i = b.buf.i
 //@   requires b != nil && b.buf != nil
-//@   modifies b.buf.i, b.buf.src, b.ref
+//@   modifies b.buf.i, b.depth, b.buf.src, b.ref
+//@   ensures b.depth == old(b.depth)
 //@   ensures validR(b) && b.buf.src == data && b.buf.i == 0
 //@   safety [C05]
 //
